@@ -88,8 +88,12 @@ func soloOp(k opKey, wantText bool) (opResult, int64) {
 	rt.Hook = c
 	r := runOp(k, nil, wantText)
 	rt.Hook = old
+	soloInvariants = append(soloInvariants, drainInvariants()...)
 	return r, c.step
 }
+
+// soloInvariants: in-operation invariants (O7) violated during solo executions.
+var soloInvariants []string
 
 // soloTrace executes one operation solo and returns the sequence of its yield sites.
 func soloTrace(k opKey) []uint32 {
